@@ -14,6 +14,7 @@ from pyvc.contract import Contract, LoopSpec
 from pyvc.values import Builtin, ClassVal, DictVal, ExcVal, ListVal, Obj, Opaque, SeqVal, Sym, SymList, TupleVal, Unsupported
 
 from .common import *  # noqa
+from .c06_parameters import dict_of6
 from .c08_taxscales import ScaleWorld, MR, LA, RL, part, in_bracket, below_first, fresh_fn, State, state_of, positional_facts
 
 TL = "openfisca_core.taxscales.tax_scale_like.TaxScaleLike"
@@ -834,6 +835,130 @@ class ToMarginal(Contract):
         return judge(nat)
 
 
+
+class AddTaxScaleSite(Contract):
+    """call-site form of AddTaxScale (what it proves): requires both scales well formed and the added one with non-negative thresholds;
+    ensures the receiver well formed with marginal rate = previous marginal rate + the added scale's, the added scale unchanged"""
+    name = f"{MR}.add_tax_scale"
+    prop = ()
+
+    def outcomes(self, I, ctx, a, old):
+        s, o = a["self"], a["tax_scale"]
+        before, nr = state_of(I, ctx, s)
+        other, nro = state_of(I, ctx, o)
+        ctx.oblige("add_tax_scale.requires.receiver-well-formed", well_formed(ctx, before, nr), kind="requires")
+        ctx.oblige("add_tax_scale.requires.added-scale-well-formed", well_formed(ctx, other, nro), kind="requires")
+        ctx.oblige("add_tax_scale.requires.added-scale-has-non-negative-thresholds", z3.Implies(other.n > 0, other.T(0) >= 0), kind="requires")
+        rhos = ctx.ghost.setdefault("rho", {})
+        rho = rhos.get(id(s)) or Rho(ctx, before, "recv")
+        rho_o = rhos.get(id(o)) or Rho(ctx, other, "added")
+        rhos[id(o)] = rho_o
+        n_after = ctx.fresh_int("n_after")
+        after = replace_lists(ctx, s, n_after, "added_to")
+        ctx.assume(well_formed(ctx, after))
+        rho2 = Rho(ctx, after, "sum")
+        x = z3.Real(ctx.fresh_name("x_ats"))
+        ctx.assume(z3.ForAll([x], rho2.f(x) == rho.f(x) + rho_o.f(x), patterns=[rho2.f(x)]))
+        rhos[id(s)] = rho2
+        ctx.ghost.setdefault("added_scales", []).append(o)
+        return ("return", None)
+
+    def post(self, I, ctx, a, out, old):
+        return []
+
+
+class CombineTaxScales(Contract):
+    name = "openfisca_core.taxscales.helpers.combine_tax_scales"
+    prop = ("C09",)
+    top_level = True
+    cases = ("three-members-new-scale", "three-members-into-a-given-scale", "empty-group", "no-group")
+    descr = ("combining the marginal-rate scales of a parameter group (three members, each a marginal-rate scale or something else): the "
+             "result's marginal rate at every point is the sum of the marginal rates of the members that are marginal-rate scales (plus "
+             "the given scale's), other members are skipped, every member scale is added once and left unchanged; an empty group gives "
+             "back what was given")
+    inline = ("openfisca_core.taxscales.tax_scale_like.TaxScaleLike.__init__",
+              "openfisca_core.taxscales.rate_tax_scale_like.RateTaxScaleLike.__init__")
+
+    def setup(self, I, ctx, case):
+        R = I.resolve_qualified
+        NAI = R("openfisca_core.parameters.parameter_node_at_instant.ParameterNodeAtInstant")
+        if case == "no-group":
+            return {"node": None, "combined_tax_scales": None, "__case": case, "__members": [], "__given": None}
+        members, kids = [], []
+        if case.startswith("three"):
+            for k in range(3):
+                w = ScaleWorld(I, ctx, MR, min_brackets=0)
+                ctx.assume(z3.Implies(w.n > 0, w.T(0) >= 0))
+                is_scale = ctx.fresh_bool(f"member{k}_is_a_marginal_rate_scale")
+                other = Opaque(None, f"member{k}-not-a-scale", {"isinstance": lambda ctx2, c: False})
+                members.append((w, is_scale, other))
+        given = None
+        if case == "three-members-into-a-given-scale":
+            gw = ScaleWorld(I, ctx, MR, min_brackets=0)
+            given = gw
+        a = {"__case": case, "__members": members, "__given": given}
+        ctx.ghost["rho"] = {}
+        for w, _, _ in members:
+            ctx.ghost["rho"][id(w.scale)] = Rho(ctx, State(w.T, w.R, w.n), "member")
+        if given is not None:
+            ctx.ghost["rho"][id(given.scale)] = Rho(ctx, State(given.T, given.R, given.n), "given")
+            ctx.ghost["rho_given0"] = ctx.ghost["rho"][id(given.scale)]
+        # which members are scales is decided here (one path per combination)
+        chosen = []
+        for k, (w, is_scale, other) in enumerate(members):
+            chosen.append(w.scale if ctx.branch(is_scale) else other)
+        a["__chosen"] = chosen
+        node = Obj(NAI, {"_name": "taxes", "_instant_str": "2020-01-01",
+                         "_children": dict_of6([(f"m{k}", v) for k, v in enumerate(chosen)])}, label="group-at-instant")
+        a["node"] = node
+        a["combined_tax_scales"] = given.scale if given is not None else None
+        return a
+
+    @staticmethod
+    def local_contracts():
+        return {AddTaxScaleSite.name: AddTaxScaleSite(), AddBracketSite.name: AddBracketSite()}
+
+    def post(self, I, ctx, a, out, old):
+        case = a["__case"]
+        if out[0] != "return":
+            return [("no-exception", False)]
+        r = out[1]
+        if case == "no-group":
+            return [("nothing-to-combine-gives-back-what-was-given", r is None)]
+        if case == "empty-group":
+            return [("an-empty-group-gives-back-what-was-given", r is a["combined_tax_scales"])]
+        if not isinstance(r, Obj) or r.cls is not I.resolve_qualified(MR):
+            return [("returns-a-marginal-rate-scale", False)]
+        added = ctx.ghost.get("added_scales", [])
+        scales = [c for c in a["__chosen"] if isinstance(c, Obj)]
+        res = [("every-member-scale-is-added-once-in-order-and-nothing-else", len(added) == len(scales) and all(x is y for x, y in zip(added, scales)))]
+        if a["__given"] is not None:
+            res.append(("the-given-scale-is-the-one-filled", r is a["__given"].scale))
+        else:
+            res.append(("a-new-scale", all(r is not c for c in scales)))
+        rho = ctx.ghost["rho"].get(id(r))
+        x = ctx.fresh_real("x")
+        if rho is None:
+            # no member scale was added: the result is the scale as given / the fresh (0, 0) scale
+            fin, nr = state_of(I, ctx, r)
+            rho = Rho(ctx, fin, "result")
+        total = z3.RealVal(0)
+        for c in scales:
+            total = total + ctx.ghost["rho"][id(c)].f(x)
+        if a["__given"] is not None:
+            total = total + ctx.ghost["rho_given0"].f(x)
+        res.append(("marginal-rate-everywhere-is-the-sum-of-the-member-scales'-marginal-rates", rho.f(x) == total))
+        for k, (w, _, _) in enumerate(a["__members"]):
+            res += [(f"member-{k}-" + nm, f) for nm, f in unchanged(I, ctx, w, scale=w.scale)]
+        return res
+
+    def probes(self, case):
+        return [{"callee": self.name, "script": NATIVE, "op": "combine_tax_scales", "thresholds": [0.0, 10.0], "rates": [0.1, 0.2]}]
+
+    def judge_native(self, I, case, call, nat):
+        return judge(nat)
+
+
 def next_k(k, p, t, x):
     """the bracket containing x after a threshold t was inserted at position p, when it was bracket k before"""
     return z3.If(k >= p, k + 1, z3.If(z3.And(k == p - 1, x >= t), p, k))
@@ -1043,4 +1168,4 @@ def lemmas(prop, timeout_ms):
     return recs
 
 
-CONTRACTS = [MultiplyRates(), MultiplyThresholds(), Copy(), ScaleTaxScales(), CombineBracket(), AddTaxScale(), Inverse(), ToAverage(), ToMarginal()]
+CONTRACTS = [MultiplyRates(), MultiplyThresholds(), Copy(), ScaleTaxScales(), CombineBracket(), AddTaxScale(), Inverse(), ToAverage(), ToMarginal(), CombineTaxScales()]
